@@ -87,8 +87,8 @@ class TranslateError(Exception):
 
 
 STR, INT, BOOL, PAT, PATS, DYN, NONE, MATCH = "str", "int", "bool", "pat", "pats", "dyn", "none", "match"
-ITEM, KEYS, VERSION, OTABLE, OENTRY, OEX, FLOATV, REGEX, TPL = \
-    "item", "keys", "version", "otable", "oentry", "oex", "floatv", "regex", "tpl"
+ITEM, KEYS, VERSION, OTABLE, OENTRY, OEX, FLOATV, REGEX, TPL, ARR, CURVE = \
+    "item", "keys", "version", "otable", "oentry", "oex", "floatv", "regex", "tpl", "arr", "curve"
 
 
 def LIST(t):
@@ -114,7 +114,7 @@ def TUPLE(*ts):
 SIMPLE_TYPE = {STR: "list N", INT: "Z", BOOL: "bool", PAT: "list frag", PATS: "list (list frag)", DYN: "V",
                ITEM: "py_item V", KEYS: "py_keys", VERSION: "las_version",
                OTABLE: "list ((las_version * list N) * order_entry)", OENTRY: "order_entry",
-               OEX: "(item_order * list (list N))", FLOATV: "F", REGEX: "re", TPL: "list tpl"}
+               OEX: "(item_order * list (list N))", FLOATV: "F", REGEX: "re", TPL: "list tpl", ARR: "A", CURVE: "C"}
 
 
 def is_type(ty, kind):
@@ -250,6 +250,47 @@ Record num_ops (V F : Type) := mk_num_ops {
   np_float64 : list N -> option F;
   np_isfinite : F -> bool;
   num_of_float : F -> V }.
+(* range(n); dict with int keys; l[i] on a list (negative i counts from the end; None: IndexError)
+   and l[i].attr = v as a functional update *)
+Definition pyo_range (n : Z) : list Z := List.map Z.of_nat (seq 0 (Z.to_nat n)).
+Fixpoint pyo_idict_set {A : Type} (d : list (Z * A)) (k : Z) (v : A) : list (Z * A) :=
+  match d with
+  | [] => [(k, v)]
+  | (k', v') :: d' => if (k' =? k)%Z then (k', v) :: d' else (k', v') :: pyo_idict_set d' k v
+  end.
+Fixpoint pyo_idict_item {A : Type} (d : list (Z * A)) (k : Z) : option A :=
+  match d with
+  | [] => None
+  | (k', v') :: d' => if (k' =? k)%Z then Some v' else pyo_idict_item d' k
+  end.
+Definition pyo_idict_get {A : Type} (d : list (Z * A)) (k : Z) (dflt : A) : A :=
+  match pyo_idict_item d k with Some v => v | None => dflt end.
+Definition pyo_lindex (n : nat) (i : Z) : option nat :=
+  let len := Z.of_nat n in
+  let j := if (i <? 0)%Z then (i + len)%Z else i in
+  if ((0 <=? j) && (j <? len))%Z then Some (Z.to_nat j) else None.
+Definition pyo_list_item {A : Type} (l : list A) (i : Z) : option A :=
+  match pyo_lindex (List.length l) i with Some n => nth_error l n | None => None end.
+Fixpoint pyo_list_upd {A : Type} (l : list A) (n : nat) (f : A -> A) : list A :=
+  match l with
+  | [] => []
+  | x :: r => match n with O => f x :: r | S k => x :: pyo_list_upd r k f end
+  end.
+Definition pyo_list_modify {A : Type} (l : list A) (i : Z) (f : A -> A) : option (list A) :=
+  match pyo_lindex (List.length l) i with Some n => Some (pyo_list_upd l n f) | None => None end.
+(* what LASFile.read asks of the column arrays the engines yield (A) and of the curve items (C):
+   arr.dtype == float, arr[arr == null] = np.nan (as the array afterwards), len(arr),
+   np.empty(n) * np.nan, item.data = arr, CurveItem(mnemonic="", data=arr), SectionItems.append *)
+Record read_ops (V A C : Type) := mk_read_ops {
+  arr_is_float : A -> bool;
+  arr_null_to_nan : V -> A -> A;
+  arr_len : A -> Z;
+  arr_nan : Z -> A;
+  c_set_data : C -> A -> C;
+  c_new : A -> C;
+  sec_append : list C -> C -> list C }.
+Arguments arr_is_float {V A C}. Arguments arr_null_to_nan {V A C}. Arguments arr_len {V A C}.
+Arguments arr_nan {V A C}. Arguments c_set_data {V A C}. Arguments c_new {V A C}. Arguments sec_append {V A C}.
 (* what las._json_value asks of a header value or sample: isinstance(x, np.integer),
    isinstance(x, (float, np.floating)), np.isfinite(x), int(x), float(x), None *)
 Record json_ops (V : Type) := mk_json_ops {
@@ -481,6 +522,8 @@ class Tr:
             return E("[" + "; ".join(cstr(x.value) for x in n.elts) + "]", LIST(STR))
         if isinstance(n, ast.ListComp):
             return self.listcomp(n, env)
+        if isinstance(n, ast.DictComp):
+            return self.dictcomp(n, env)
         self.err(n, "unsupported expression %s" % type(n).__name__)
 
     def expr_want(self, n, env, want):
@@ -519,6 +562,27 @@ class Tr:
         ety = self.ctype(it.ty[1], n)
         return self.strict([it], lambda c: "List.map (fun %s : %s => %s) (%s)" % (self.var(g.target.id), ety, body.code, c[0]),
                            LIST(body.ty))
+
+    def dictcomp(self, n, env):
+        """{k: v for x in <list>}: the dict built by setting the keys in order"""
+        if len(n.generators) != 1:
+            self.err(n, "nested comprehension")
+        g = n.generators[0]
+        if g.ifs or g.is_async or not isinstance(g.target, ast.Name):
+            self.err(n, "unsupported comprehension")
+        it = self.expr(g.iter, env)
+        if not is_type(it.ty, "list"):
+            self.err(n, "comprehension over %s" % (it.ty,))
+        env2 = dict(env)
+        env2[g.target.id] = it.ty[1]
+        k, v = self.expr(n.key, env2), self.expr(n.value, env2)
+        if k.partial or v.partial:
+            self.err(n, "comprehension element may raise")
+        dty = DICT(k.ty, v.ty)
+        pre = self.dict_prefix(dty, n)
+        cty = self.ctype(dty, n)
+        return self.strict([it], lambda c: "fold_left (fun (d_ : %s) (%s : %s) => %s_set d_ (%s) (%s)) (%s) ([] : %s)" % (
+            cty, self.var(g.target.id), self.ctype(it.ty[1], n), pre, k.code, v.code, c[0], cty), dty)
 
     def binop(self, n, env):
         if isinstance(n.op, ast.Mod):
@@ -668,6 +732,10 @@ class Tr:
                 return self.strict([a], lambda c: wrap("dyn_is_none ops (%s)" % c[0]), BOOL)
             if is_type(a.ty, "opt") and b.ty == NONE:
                 return self.strict([a], lambda c: wrap("pyo_is_none (%s)" % c[0]), BOOL)
+            if a.ty == BOOL and b.ty == BOOL and b.const is not None:
+                # flag is False / flag is True on a bool
+                pos = (lambda s: s) if b.const else (lambda s: "negb (%s)" % s)
+                return self.strict([a], lambda c: wrap(pos(c[0])), BOOL)
             self.err(n, "is on %s and %s" % (a.ty, b.ty))
         self.err(n, "unsupported comparison operator")
 
@@ -701,6 +769,13 @@ class Tr:
             if tys == {STR, ITEM}:        # a str is never the same object as an item
                 return isinstance(n.ops[0], ast.IsNot)
         return None
+
+    def dict_prefix(self, dty, node):
+        if dty[1] == STR:
+            return "pyo_dict"
+        if dty[1] == INT:
+            return "pyo_idict"
+        self.err(node, "dict with keys of type %s" % (dty[1],))
 
     def int_bound(self, n, env):
         if n is None:
@@ -747,9 +822,15 @@ class Tr:
             return self.call_registered("HeaderItem.__getitem__", [s, k], n)
         if is_type(s.ty, "dict"):
             k = self.expr(sl, env)
-            if k.ty != s.ty[1] or k.ty != STR:
+            pre = self.dict_prefix(s.ty, n)
+            if k.ty != s.ty[1]:
                 self.err(n, "dict key of type %s" % (k.ty,))
-            return self.partial_op([s, k], lambda c: "pyo_dict_item (%s) (%s)" % (c[0], c[1]), s.ty[2])
+            return self.partial_op([s, k], lambda c: "%s_item (%s) (%s)" % (pre, c[0], c[1]), s.ty[2])
+        if is_type(s.ty, "list") and not isinstance(sl, (ast.Slice, ast.Tuple)):
+            i = self.expr(sl, env)
+            if i.ty != INT:
+                self.err(n, "list index of type %s" % (i.ty,))
+            return self.partial_op([s, i], lambda c: "pyo_list_item (%s) (%s)" % (c[0], c[1]), s.ty[1])
         if s.ty != STR:
             self.err(n, "subscript on %s" % (s.ty,))
         if isinstance(sl, ast.Slice):
@@ -821,6 +902,11 @@ class Tr:
                 self.err(n, "len of %s" % (a.ty,))
             if f.id == "str" and len(n.args) == 1:
                 return self.to_str(self.expr(n.args[0], env), n)
+            if f.id == "range" and len(n.args) == 1:
+                a = self.expr(n.args[0], env)
+                if a.ty != INT:
+                    self.err(n, "range of %s" % (a.ty,))
+                return self.strict([a], lambda c: "pyo_range (%s)" % c[0], LIST(INT))
             if f.id == "any" and len(n.args) == 1:
                 a = self.expr(n.args[0], env)
                 if a.ty != LIST(BOOL):
@@ -890,9 +976,10 @@ class Tr:
         m = f.attr
         args = [self.expr(a, env) for a in n.args]
         tys = [a.ty for a in args]
-        if is_type(r.ty, "dict") and m == "get" and len(args) == 2 and tys[0] == r.ty[1] == STR:
+        if is_type(r.ty, "dict") and m == "get" and len(args) == 2 and tys[0] == r.ty[1]:
             d = self.coerce(args[1], r.ty[2], n)
-            return self.strict([r, args[0], d], lambda c: "pyo_dict_get (%s) (%s) (%s)" % (c[0], c[1], c[2]), r.ty[2])
+            pre = self.dict_prefix(r.ty, n)
+            return self.strict([r, args[0], d], lambda c: "%s_get (%s) (%s) (%s)" % (pre, c[0], c[1], c[2]), r.ty[2])
         if r.ty != STR:
             self.err(n, "method .%s on %s" % (m, r.ty))
         if m == "strip" and not args:
@@ -968,6 +1055,8 @@ class Tr:
                     target(x)
             elif isinstance(t, ast.Subscript) and isinstance(t.value, ast.Name):
                 add(t.value.id)
+            elif isinstance(t, ast.Attribute) and isinstance(t.value, ast.Subscript) and isinstance(t.value.value, ast.Name):
+                add(t.value.value.id)
         for s in stmts:
             if isinstance(s, ast.Assign):
                 for t in s.targets:
@@ -1048,6 +1137,13 @@ class Tr:
             return tail(env)
         s, rest = ss[0], ss[1:]
         go = lambda env2: self.stmts(rest, env2, tail)
+        for src, repl in self.spec.get("stmt_rewrites", {}).items():
+            # a statement whose effect the spec states as an assignment of an oracle operation's result
+            if ast.dump(s) == ast.dump(ast.parse(src).body[0]):
+                s = ast.copy_location(ast.parse(repl).body[0], s)
+                ast.fix_missing_locations(s)
+                for x in ast.walk(s):
+                    x.lineno = ss[0].lineno
         if isinstance(s, ast.Pass):
             return go(env)
         if isinstance(s, ast.Expr) and isinstance(s.value, ast.Constant) and isinstance(s.value.value, str):
@@ -1090,7 +1186,11 @@ class Tr:
                 name = c.func.value.id
                 lty = env.get(name)
                 a = self.expr(c.args[0], env)
-                if lty == PATS:
+                if name in self.spec.get("append_ops", {}) and is_type(lty, "list"):
+                    # SectionItems.append: an operation of the spec's record, not list.append
+                    a = self.coerce(a, lty[1], s)
+                    new = self.strict([a], lambda c: "%s (%s) (%s)" % (self.spec["append_ops"][name], self.var(name), c[0]), lty)
+                elif lty == PATS:
                     if a.ty != PAT or a.partial:
                         self.err(s, "append of %s to a pattern list" % (a.ty,))
                     new = E("(%s ++ [%s])" % (self.var(name), a.code), PATS)
@@ -1150,6 +1250,22 @@ class Tr:
                 self.ctype(t, s)
                 env2[nm] = t
             return "let '(%s) := %s in\n" % (", ".join(self.var(nm) for nm in names), e.code) + go(env2)
+        if isinstance(tg, ast.Attribute) and isinstance(tg.value, ast.Subscript) and isinstance(tg.value.value, ast.Name) \
+                and is_type(env.get(tg.value.value.id), "list"):
+            # l[i].attr = v: the list with its i-th element updated (IndexError: None)
+            name = tg.value.value.id
+            lty = env[name]
+            setter = self.spec.get("attr_setters", {}).get((lty[1], tg.attr))
+            if setter is None:
+                self.err(s, "assignment to .%s of an element of type %s" % (tg.attr, lty[1]))
+            i = self.expr(tg.value.slice, env)
+            if i.ty != INT:
+                self.err(s, "list index of type %s" % (i.ty,))
+            val = self.coerce(self.expr(v, env), setter[1], s)
+            new = self.partial_op([i, val], lambda c: "pyo_list_modify (%s) (%s) (fun c_ => %s c_ (%s))" % (
+                self.var(name), c[0], setter[0], c[1]), lty)
+            pre, post, env2 = self.bind(name, new, env, s)
+            return pre + go(env2) + post
         if isinstance(tg, ast.Subscript):
             # d[k] = v on a local dict
             if not (isinstance(tg.value, ast.Name) and is_type(env.get(tg.value.id), "dict")):
@@ -1157,10 +1273,11 @@ class Tr:
             name = tg.value.id
             dty = env[name]
             k = self.expr(tg.slice, env)
-            if k.ty != STR or dty[1] != STR:
+            pre = self.dict_prefix(dty, s)
+            if k.ty != dty[1]:
                 self.err(s, "dict key of type %s" % (k.ty,))
             val = self.expr_want(v, env, dty[2])
-            new = self.strict([k, val], lambda c: "pyo_dict_set (%s) (%s) (%s)" % (self.var(name), c[0], c[1]), dty)
+            new = self.strict([k, val], lambda c: "%s_set (%s) (%s) (%s)" % (pre, self.var(name), c[0], c[1]), dty)
             pre, post, env2 = self.bind(name, new, env, s)
             return pre + go(env2) + post
         if not isinstance(tg, ast.Name):
@@ -1749,6 +1866,75 @@ class ParserInitTr(Tr):
         return any(isinstance(p, ast.Attribute) and p.value is name for p in ast.walk(fn))
 
 
+def rewrite_self(tr, stmts, tags=()):
+    """self.<attr> read and written as the local variable attr_<attr> (self must not be used in any
+    other way); self.<m> for m in tags becomes the constant m"""
+    class Rw(ast.NodeTransformer):
+        def visit_Attribute(self, node):
+            self.generic_visit(node)
+            if isinstance(node.value, ast.Name) and node.value.id == "self":
+                if node.attr in tags:
+                    if not isinstance(node.ctx, ast.Load):
+                        tr.err(node, "assignment to the method self.%s" % node.attr)
+                    return ast.copy_location(ast.Constant(value=node.attr), node)
+                return ast.copy_location(ast.Name(id="attr_" + node.attr, ctx=node.ctx), node)
+            return node
+    out = []
+    for st in stmts:
+        for x in ast.walk(st):
+            if isinstance(x, ast.Name) and x.id.startswith("attr_"):
+                tr.err(x, "a name starting with attr_")
+        st = Rw().visit(st)
+        for x in ast.walk(st):
+            if isinstance(x, ast.Name) and x.id == "self":
+                tr.err(x, "self is used other than as self.<attribute>")
+        ast.fix_missing_locations(st)
+        out.append(st)
+    return out
+
+
+class BlockTr(Tr):
+    """A block of a big method as a function of its free variables: the statements from the (unique)
+    assignment to the spec's `anchor` variable to the end of the statement list that holds it, with
+    self.<attr> as the local attr_<attr>, followed by `return <spec result>`.  No statement of the
+    block may return, break or continue out of it."""
+
+    def body_of(self, fn):
+        found = []
+        for node in ast.walk(fn):
+            for field in ("body", "orelse", "finalbody"):
+                block = getattr(node, field, None)
+                if not isinstance(block, list):
+                    continue
+                for i, st in enumerate(block):
+                    if isinstance(st, ast.Assign) and len(st.targets) == 1 and isinstance(st.targets[0], ast.Name) \
+                            and st.targets[0].id == self.spec["anchor"] \
+                            and ("anchor_value" not in self.spec or same_ast(st.value, self.spec["anchor_value"])):
+                        found.append(block[i:])
+        if len(found) != 1:
+            self.err(fn, "expected exactly one assignment to %s, found %d" % (self.spec["anchor"], len(found)))
+        frag = found[0]
+        if "length" in self.spec:
+            frag = frag[:self.spec["length"]]       # ... or only the first statements of it
+        if "until" in self.spec:
+            # ... up to (not including) the first statement that assigns the `until` variable
+            cut = [i for i, st in enumerate(frag) if self.spec["until"] in self.assigned([st], [])]
+            if not cut:
+                self.err(fn, "no assignment to %s after %s" % (self.spec["until"], self.spec["anchor"]))
+            frag = frag[:cut[0]]
+        for st in frag:
+            for x in ast.walk(st):
+                if isinstance(x, (ast.Return, ast.Yield, ast.YieldFrom, ast.Await)):
+                    self.err(x, "%s inside the block" % type(x).__name__)
+        ret = ast.parse("return " + self.spec["result"]).body[0]
+        for x in ast.walk(ret):
+            x.lineno = frag[-1].end_lineno
+        return rewrite_self(self, list(frag)) + [ret]
+
+    def check_signature(self, fn):
+        pass        # the declared parameters are the block's free variables
+
+
 SPECS = [
     dict(py="configure_metadata_patterns", file="reader.py", cls=None, coq="py_configure_metadata_patterns",
          params=[("line", STR), ("section_name", STR)], ret=PATS, mode="patterns"),
@@ -1805,6 +1991,24 @@ SPECS += [
          maybe_unset=("attr_default_order", "attr_orders"), locals={"attr_orders": DICT(STR, STR)},
          const_exprs={"defaults.ORDER_DEFINITIONS": ("order_definitions", OTABLE)},
          ret=TUPLE(STR, STR, OPT(STR), OPT(DICT(STR, STR)))),
+    dict(py="read", file="las.py", cls="LASFile", coq="py_reader_n_columns", translator=BlockTr,
+         anchor="reader_n_columns", anchor_value="n_columns", length=2, result="reader_n_columns",
+         params=[("n_columns", INT), ("attr_curves", LIST(CURVE)), ("wrap_in_version", BOOL), ("wrap_is_yes", BOOL)],
+         ret=INT, extra_binders=[("{C : Type}", "")],
+         const_exprs={'"WRAP" in attr_version': ("v_wrap_in_version", BOOL),
+                      'attr_version.WRAP.value == "YES"': ("v_wrap_is_yes", BOOL)}),
+    dict(py="read", file="las.py", cls="LASFile", coq="py_bind_columns", translator=BlockTr,
+         anchor="data_assigned_to_curves", result="attr_curves",
+         params=[("attr_curves", LIST(CURVE)), ("curves_data_gen", LIST(ARR)), ("version_NULL", BOOL), ("provisional_null", DYN)],
+         ret=LIST(CURVE), extra_binders=[("{A C : Type} (rops : read_ops V A C)", "rops")],
+         append_ops={"attr_curves": "sec_append rops"}, attr_setters={(CURVE, "data"): ("c_set_data rops", ARR)},
+         stmt_rewrites={"curve_arr[curve_arr == provisional_null] = np.nan":
+                        "curve_arr = arr_null_to_nan(provisional_null, curve_arr)"},
+         oracles={"arr_null_to_nan": dict(args=[DYN, ARR], ret=ARR, code="arr_null_to_nan rops", raises=False)},
+         const_exprs={"curve_arr.dtype == float": ("arr_is_float rops v_curve_arr", BOOL),
+                      "len(curve_arr)": ("arr_len rops v_curve_arr", INT),
+                      'CurveItem(mnemonic="", data=curve_arr)': ("c_new rops v_curve_arr", CURVE),
+                      "np.empty(curve_length) * np.nan": ("arr_nan rops v_curve_length", ARR)}),
     dict(py="curves", file="reader.py", cls="SectionParser", coq="py_parser_curves",
          params=[("self", None)], kwarg=("keys", KEYS), ret=ITEM, constructors=("CurveItem",),
          self_methods={"strip_brackets": "SectionParser.strip_brackets"}),
